@@ -56,7 +56,7 @@ DIMS = OrderedDict([
     ("case", ["lower", "upper"]),
     ("order", ["given", "reversed", "rotated"]),
     ("extras", ["V", "P0", "rho", "c110"]),
-    ("cwd", ["empty", "dir", "file"]),
+    ("cwd", ["empty", "dir", "file", "file:other:dot"]),   # see relations_file()
     ("drop", [DEFAULT_DROP, 1.0, 0.1]),
     ("shape", list(C8.SHAPES)),                    # volume dependence of the tensor: smooth / retained components dip below drop_atol at ONE volume
     ("tol", [None, 4.0]),
@@ -109,14 +109,14 @@ def deltas(tol, ints):
     return small, large
 
 
-def redundant_coordinate(system, S):
-    """first non-vanishing j in S whose value is determined by the other supplied components (rank unchanged without it)"""
+def redundant_coordinate(system, S, last=False):
+    """first (or last) non-vanishing j in S whose value is determined by the other supplied components (rank unchanged without it)"""
     nvn = set(L.nonvanishing(system))
     S = [j for j in S if j in nvn]
     r = L.subset_rank(system, S)
     if r == len(S):
         return None
-    for j in S:
+    for j in (S[::-1] if last else S):
         if L.subset_rank(system, [k for k in S if k != j]) == r:
             return j
     raise HarnessError("redundant set without a redundant coordinate")
@@ -177,17 +177,21 @@ def measures(system, S, vals, A):
             "maxabs": float(numpy.abs(r).max()), "maxrel": maxrel}
 
 
-def scenario(system, S, kind, ints, small, tol, A, zc=None, shape="smooth"):
+def scenario(system, S, kind, ints, small, tol, A, zc=None, shape="smooth", delta=None, jpick="first"):
     """supplied values (|S| x NV), the invariant tensor they come from, the perturbed coordinate.
     zc: a supplied vanishing component that gets a clearly non-zero value at one volume."""
     E = C8.expected_tensor(system, NV, ints=ints, small=small, shape=shape)
     vals = E[list(S)].copy() if S else numpy.zeros((0, NV))
     jstar = None
     if kind != "consistent":
-        jstar = redundant_coordinate(system, S)
+        jstar = redundant_coordinate(system, S, last=(jpick == "last"))
         if jstar is None:
             raise HarnessError(f"{system} S={C8.names(S)}: no redundancy, kind {kind} is not applicable")
         ds, dl = deltas(tol, ints)
+        if delta is not None:
+            if kind != "small":
+                raise HarnessError("an explicit delta is for the value kind 'small' (rounding-level disagreements) only")
+            ds = float(delta)
         vals[list(S).index(jstar), PERT_ROW] += ds if kind == "small" else dl
         # the classification must hold under every reading, with the relations written as the reference writes them
         # (coefficients +-1, 1/2) and, when the relations in force are EQUIVALENT to the reference's, also as the tree
@@ -197,7 +201,7 @@ def scenario(system, S, kind, ints, small, tol, A, zc=None, shape="smooth"):
         if equivalent_to_reference(system, A):
             readings.append(measures(system, S, vals, A))
         for m in readings:
-            if kind == "small" and not max(m.values()) <= tol / 2:
+            if kind == "small" and not max(m.values()) <= tol / 2 * (1 + 1e-9):
                 raise HarnessError(f"{system} S={C8.names(S)}: 'small' perturbation is not small under every reading: {m} tol={tol}")
             if kind == "large" and not min(m["rss_joint"], m["rss_fit"], m["maxabs"]) >= 2 * tol:
                 raise HarnessError(f"{system} S={C8.names(S)}: 'large' perturbation is not large under every reading: {m} tol={tol}")
@@ -259,18 +263,49 @@ def make_table(S, vals, ints, case, order, extras, rows="default"):
     return C8.relabel_rows(pandas.DataFrame(OrderedDict(cols)), rows), nonmod
 
 
+# a user-written relations file: WHAT it is called x HOW it is passed.  Its content is always the relations of the table's
+# own system written by the reference (laue_ref.user_relations_text: equivalent to the packaged file, other spelling).
+#   name kind  plain: my_relations.txt | own: the name of the system itself | other: the name of ANOTHER packaged system
+#              whose packaged relations make the table insufficient or inconsistent (so a lookup that prefers the packaged
+#              file of that name changes the verdict)
+#   style      rel: `name` | dot: `./name` | abs: absolute path | sub: `sub/name`
+# "file" = "file:plain:rel".  Rule on the tree (fill.py docstring/comment): a path that is a file is used as the relations.
+FILE_NAMEKINDS = ("plain", "own", "other")
+FILE_STYLES = ("rel", "dot", "abs", "sub")
+OTHER_SYSTEM = {"cubic": "hexagonal", "hexagonal": "cubic", "tetragonal6": "cubic", "tetragonal7": "tetragonal6",
+                "trigonal6": "hexagonal", "trigonal7": "trigonal6", "orthorhombic": "cubic", "monoclinic": "orthorhombic",
+                "triclinic": "cubic"}
+
+
+def is_file_cwd(cwd):
+    return cwd == "file" or cwd.startswith("file:")
+
+
+def relations_file(system, cwd, base):
+    """(file name relative to the scratch cwd `base`, the string passed as `system`)"""
+    namekind, style = ("plain", "rel") if cwd == "file" else cwd.split(":")[1:]
+    if namekind not in FILE_NAMEKINDS or style not in FILE_STYLES:
+        raise HarnessError(f"unknown relations-file variant {cwd}")
+    name = {"plain": USER_FILE, "own": system, "other": OTHER_SYSTEM[system]}[namekind]
+    rel = os.path.join("sub", name) if style == "sub" else name
+    arg = {"rel": name, "dot": "./" + name, "abs": os.path.join(base, name), "sub": "sub/" + name}[style]
+    return rel, arg
+
+
 def call_fill(system, table, cwd, ir, ires, drop, tol):
     """ONE execution of the real fill_cij in a fresh scratch working directory.
     Returns ('ok', frame) or ('raised', exception)."""
     from cij.util.fill import fill_cij
-    with C8.scratch_cwd("c09-"):
+    with C8.scratch_cwd("c09-") as base:
         sysarg = system
         if cwd == "dir":
             os.mkdir(system)
-        elif cwd == "file":
-            with open(USER_FILE, "w") as fp:
+        elif is_file_cwd(cwd):
+            rel, sysarg = relations_file(system, cwd, base)
+            if os.path.dirname(rel):
+                os.mkdir(os.path.dirname(rel))
+            with open(rel, "w") as fp:
                 fp.write(L.user_relations_text(system))
-            sysarg = USER_FILE
         elif cwd != "empty":
             raise HarnessError(f"unknown cwd {cwd}")
         kw = {"ignore_residuals": ires, "ignore_rank": ir, "drop_atol": drop}
@@ -286,7 +321,7 @@ def call_fill(system, table, cwd, ir, ires, drop, tol):
 
 def relations_in_force(system, cwd):
     """the relations the implementation is asked to use, parsed by the reference's own parser"""
-    if cwd == "file":
+    if is_file_cwd(cwd):
         return relation_rows(L.parse_relations(L.user_relations_text(system), "user-file"))
     return relation_rows(C8.packaged_relations(system))
 
@@ -311,7 +346,8 @@ def execute(c, small=True):
     ints = c["dtype"] == "int"
     tol = DEFAULT_TOL if c["tol"] is None else c["tol"]
     A = relations_in_force(s, c["cwd"])
-    E, vals, jstar = scenario(s, S, c["kind"], ints, small, tol, A, c["zc"] if z_inconsistent(c) else None, c["shape"])
+    E, vals, jstar = scenario(s, S, c["kind"], ints, small, tol, A, c["zc"] if z_inconsistent(c) else None, c["shape"],
+                              c["delta"], c["jpick"])
     table, nonmod = make_table(S, vals, ints, c["case"], c["order"], c["extras"], c["rows"])
     status, res = call_fill(s, table, c["cwd"], c["ir"], c["ires"], c["drop"], c["tol"])
     return S, tol, A, E, vals, jstar, table, nonmod, status, res
@@ -514,6 +550,8 @@ def full_config(case):
     """lattice / CLI cases carry only their deviations from the default configuration (short replays)"""
     c = {k: v[0] for k, v in DIMS.items() if k != "subset"}
     c["zc"] = None
+    c["delta"] = None        # explicit size of the "small" disagreement (default: deltas()[0])
+    c["jpick"] = "first"     # which redundant supplied component carries the disagreement
     c.update(case)
     return c
 
@@ -540,7 +578,7 @@ def run_lattice_case(case):
             if bout == "accepted":
                 what = "presentation:" + "+".join(f"{k}-{c[k]}" for k in pres_dev)
                 # an equivalent user file may spread an inconsistency differently: equality only for consistent data
-                if not (c["cwd"] == "file" and (c["kind"] != "consistent" or z_inconsistent(c))):
+                if not (is_file_cwd(c["cwd"]) and (c["kind"] != "consistent" or z_inconsistent(c))):
                     compare_results(c, info, binfo, what, viol)
         if c["drop"] != DEFAULT_DROP:
             b = dict(c)
@@ -647,7 +685,8 @@ def run_cli(case):
     s = c["system"]
     S = supplied_components(s, c["mask"], c["z"], c["zc"])
     A = relations_in_force(s, "empty")
-    E, vals, jstar = scenario(s, S, c["kind"], False, True, DEFAULT_TOL, A, c["zc"] if z_inconsistent(c) else None, c["shape"])
+    E, vals, jstar = scenario(s, S, c["kind"], False, True, DEFAULT_TOL, A, c["zc"] if z_inconsistent(c) else None, c["shape"],
+                              c["delta"], c["jpick"])
     table, nonmod = make_table(S, vals, False, "lower", "given", "V")
     suff = L.is_sufficient(s, S)
     ek = "large" if (c["kind"] == "large" or z_inconsistent(c)) else c["kind"]
@@ -656,7 +695,9 @@ def run_cli(case):
     code, exc, out = invoke_cli(args, {"elast.dat": table_text(table)}, mkdirs=[s] if c["cwd"] == "dir" else [])
     lab = (f"`cij {' '.join(args)}` on table [V,{','.join(C8.names(S))}] kind={c['kind']} cwd={c['cwd']}"
            + ("" if c["shape"] == "smooth" else f" value-shape={c['shape']}")
-           + (f" (vanishing {c['zc']} non-zero)" if z_inconsistent(c) else ""))
+           + (f" (vanishing {c['zc']} non-zero)" if z_inconsistent(c) else "")
+           + (f" ({L.NAMES[jstar]} disagrees with its relation by {c['delta'] if c['delta'] is not None else deltas(DEFAULT_TOL, False)[0]} at one volume)"
+              if c["kind"] == "small" else ""))
     viol = []
     ename = type(exc).__name__ if exc is not None else "none"
     if code != 0:
@@ -681,6 +722,16 @@ def run_cli(case):
         viol.append(V("c09:cli:V-changed", f"{lab}: V column printed as {cols.get('v')}"))
     x, present = vector(cols)
     drop = c["drop"]
+    if ek == "small":
+        bound = math.sqrt(DEFAULT_TOL)
+        for t, j in enumerate(S):
+            if present[j] and not float(numpy.abs(x[j] - vals[t]).max()) <= bound + PRINT_TOL:
+                viol.append(V("c09:cli:supplied-moved:small", f"{lab}: supplied {L.NAMES[j]} {vals[t].tolist()} printed as {x[j].tolist()} (bound sqrt(residual_atol) = {bound:.4g})"))
+        T = true_relation_rows(s)
+        if T.shape[0] and drop <= 1e-6:
+            rv = numpy.abs(T @ x)
+            if not rv.max() <= bound + 4 * PRINT_TOL:
+                viol.append(V("c09:cli:relation-violated", f"{lab}: a relation of the class is violated by {rv.max():.4g} > sqrt(residual_atol) in the printed table"))
     if ek == "consistent":
         for t, j in enumerate(S):
             if present[j] and not float(numpy.abs(x[j] - vals[t]).max()) <= PRINT_TOL:
@@ -982,6 +1033,22 @@ def explore(ctx):
                             c = {"what": "cli", "system": s, "mask": mask, "kind": kind, "ir": ir, "ires": ires,
                                  "drop": drop, "cwd": cwd}
                             cases.append({k_: v for k_, v in c.items() if k_ not in DIMS or v != DIMS[k_][0]})
+    # ... rounding-level disagreements ("small": <= residual_atol/2 under every reading), no flag: the command must accept
+    #     (both tiers, every system with an equality relation); the same configurations through fill_cij
+    small_api = []
+    for s in L.SYSTEMS:
+        for label in ("min+1", "full"):
+            mask = subsets[s][label]
+            if mask is None or "small" not in applicable_kinds(s, L.mask_to_subset(s, mask)):
+                continue
+            for delta in (None, 0.01, 0.05):
+                for jpick in ("first", "last"):
+                    c = {"system": s, "mask": mask, "kind": "small", "jpick": jpick}
+                    if delta is not None:
+                        c["delta"] = delta
+                    c = {k_: v for k_, v in c.items() if not (k_ == "jpick" and v == "first")}
+                    cases.append(dict(c, what="cli"))
+                    small_api.append(dict(c, what="lattice"))
     # ... value shape dip x --drop-atol
     for s in L.SYSTEMS:
         for label in ("min", "full"):
@@ -1012,6 +1079,18 @@ def explore(ctx):
             seen.add(k)
             uniq.append(c)
     ctx.run(MOD, "run_case", uniq, part="cli")
+    ctx.run(MOD, "run_case", small_api, part="rounding-level-disagreements-api")
+    ctx.notes["small_disagreements"] = {"deltas": [deltas(DEFAULT_TOL, False)[0], 0.01, 0.05], "which_component": ["first", "last"],
+                                        "configurations": len(small_api)}
+    # ---- F: user-written relations files: name kind x path style (content: the table's own relations, reference spelling)
+    cases = []
+    for s in L.SYSTEMS:
+        for label in ("min", "full"):
+            for nk in FILE_NAMEKINDS:
+                for st in FILE_STYLES:
+                    cases.append({"what": "lattice", "system": s, "mask": subsets[s][label], "cwd": f"file:{nk}:{st}"})
+    ctx.run(MOD, "run_case", cases, part="relations-file-name-x-path-style")
+    ctx.notes["relations_file_alphabet"] = {"name": list(FILE_NAMEKINDS), "path_style": list(FILE_STYLES), "other_system": OTHER_SYSTEM}
     # ---- D
     cases = []
     for s in L.SYSTEMS:
